@@ -87,6 +87,12 @@ def hooks():
         ms = args[0]
         return some(ms * BitVecVal(NS_PER_MS, 64))           # in range for the claimed timestamps (|ms| < 2^41)
 
+    def h_from_timestamp(ex, st, callee, args):
+        # chrono: Some(secs * 10^9 + nsecs) unless nsecs >= 2 * 10^9 (a second and a leap second at most); the seconds are in range for the claimed timestamps
+        secs, ns = args[0], args[1]
+        ok = z3.ULT(ns, BitVecVal(2000000000, ns.size()))
+        return Fork([(ok, lambda ex, st, a: some(a[0] * BitVecVal(1000000000, 64) + z3.ZeroExt(64 - a[1].size(), a[1]))), (Not(ok), lambda ex, st, a: none())], args=[secs, ns])
+
     def h_utc_now(ex, st, callee, args): return ex.fresh('utc_now', 64)
     def h_box_new(ex, st, callee, args): return box(args[0])
 
@@ -101,6 +107,7 @@ def hooks():
         (r'^<(?:std::string::)?String as Into<Box<str>>>::into$|^(?:std::string::)?String::as_str$', h_str_box),
         (r'^(?:chrono::)?DateTime::<(?:chrono::)?Utc>::timestamp_millis$', h_ts_millis),
         (r'^(?:chrono::)?DateTime::<(?:chrono::)?Utc>::from_timestamp_millis$', h_from_millis),
+        (r'^(?:chrono::)?DateTime::<(?:chrono::)?Utc>::from_timestamp$', h_from_timestamp),
         (r'^(?:chrono::)?Utc::now$', h_utc_now),
         (r'^Box::<.*>::new$', h_box_new),
     ]
@@ -108,7 +115,9 @@ def hooks():
 
 def mk_exec():
     hk = [(re.compile(p), f) for p, f in hooks()] + containers.container_hooks() + models.generic_hooks()
-    return Exec(_MODS, hk, variants=V.variants(), loop_bound=8, step_budget=200000)
+    ex = Exec(_MODS, hk, variants=V.variants(), loop_bound=8, step_budget=200000)
+    ex.div_lemma = True        # a hand-written split of a millisecond count (x / 1000, x % 1000) must not stall the solver
+    return ex
 
 
 def unbox(v):
@@ -141,7 +150,13 @@ def sv_spec(v, sv):
     return Or(*alts) if alts else BoolVal(False)
 
 
+DEADLINE = [None]
+
+
 def solve(pc, neg, stats, timeout=60000):
+    if DEADLINE[0] is not None and time.time() > DEADLINE[0]:
+        stats['queries'] += 1
+        return z3.unknown, None, 0.0          # the job's time budget is spent: undecided (exit 2), never a pass
     s = z3.Solver(); s.set('timeout', timeout); s.add(*pc); s.add(neg)
     t = time.time(); rc = s.check(); dt = time.time() - t
     stats['queries'] += 1; stats['solver_s'] += dt
@@ -191,7 +206,8 @@ def job(spec):
         # the timestamp is built as ms * 10^6 + sub (sub < 10^6, ms < 2^42): its millisecond count is ms by construction, no division needed
         ms_, sub_ = BitVec('ts_ms', 64), BitVec('ts_sub', 64)
         ty = V.StrTok(BitVec('etype', 16)); ts = ms_ * BitVecVal(NS_PER_MS, 64) + sub_
-        vals = []; cons = [z3.ULT(ms_, BitVecVal(1 << 42, 64)), z3.ULT(sub_, BitVecVal(NS_PER_MS, 64))]
+        rng = (1 << 16) if spec[1] == 'small' else (1 << 41)
+        vals = []; cons = [ms_ >= BitVecVal(-rng, 64), ms_ < BitVecVal(rng, 64), z3.ULT(sub_, BitVecVal(NS_PER_MS, 64))]       # signed: timestamps before 1970 included; floor semantics
         keys = [V.StrTok(BitVec('fk%d' % i, 16)) for i in range(n)]
         for i in range(n):
             v, c = J.sym_vscalar('f%d' % i, J.VSCALARS); vals.append(v); cons.append(c)
@@ -201,7 +217,7 @@ def job(spec):
         res = ex.run(find_fn(r'^persistence::<impl at [^>]*>::from$' if False else r'^persistence::<impl at crates/varpulis-runtime/src/persistence\.rs:%d:[^>]*>::from$' % (psrc[:psrc.index('impl From<&Event> for SerializableEvent')].count('\n') + 1)), [box(event)], st=st0)
         inc += ex.inconclusive; stats['queries'] += ex.queries; stats['solver_s'] += ex.solver_s
         def wit(m):
-            return {'ts_ns': m.eval(ts, True).as_long(), 'fields': [J.witness(m, v, 'out')['value'] for v in vals]}
+            return {'ts_ns': m.eval(ts, True).as_signed_long(), 'fields': [J.witness(m, v, 'out')['value'] for v in vals]}
         for r in res:
             if r.status != 'return': continue
             se = r.ret
@@ -235,6 +251,7 @@ def job(spec):
 
 def _worker(spec):
     try:
+        DEADLINE[0] = time.time() + 420
         return job(spec)
     except Exception as e:
         import traceback; traceback.print_exc()
@@ -258,12 +275,21 @@ def run(ctx):
     shapes = [('scalar', 0)] + [(k, n) for k in ('array', 'map') for n in range(0, nmax + 1)]
     if tier == 'thorough': shapes += [('array+nest', 2), ('map+nest', 2)]
     ctx.bounds = {'values': 'every scalar Value class with fully symbolic payload (floats as bit patterns), arrays and maps of 0..%d such scalars%s' % (nmax, ', one nesting level' if tier == 'thorough' else ''),
-                  'events': 'events with 0..%d symbolic fields, symbolic type and a symbolic timestamp 0 <= t < 2^61 ns' % nmax,
-                  'outside': 'the byte codec (serde_json / rmp-serde and the derive-generated visitors), format auto-detection, the other checkpoint sections (windows, patterns, joins: containers of these events), timestamps before 1970'}
-    ctx.assumptions += ['chrono: timestamp_millis = floor(ns / 10^6), from_timestamp_millis(ms) = ms * 10^6 (in range)', 'map / event keys distinct; HashMap iteration in insertion order (field order is not part of event equality)']
-    tasks = [('value', k.replace('map', 'object'), n, tier) for k, n in shapes] + [('event', '-', n, tier) for n in range(0, nmax + 1)]
+                  'events': 'events with 0..%d symbolic fields, symbolic type and a symbolic timestamp -2^61 < t < 2^61 ns (before 1970 included)' % nmax,
+                  'outside': 'the byte codec (serde_json / rmp-serde and the derive-generated visitors), format auto-detection, the other checkpoint sections (windows, patterns, joins: containers of these events)'}
+    ctx.assumptions += ['chrono: timestamp_millis = floor(ns / 10^6) (also before 1970), from_timestamp_millis(ms) = ms * 10^6, from_timestamp(s, ns) = s * 10^9 + ns unless ns >= 2 * 10^9 (in range)', 'map / event keys distinct; HashMap iteration in insertion order (field order is not part of event equality)']
+    tasks = [('value', k.replace('map', 'object'), n, tier) for k, n in shapes] + [('event', '-', n, tier) for n in range(0, nmax + 1)] + [('event', 'small', 1, tier)]
+    # the small-range event job goes first: when it already shows a new violation of the event conversion (anything but the known sub-millisecond loss), the
+    # full-range event jobs are skipped — on code that splits the millisecond count by hand they only repeat it, at the price of 64-bit divisions by a constant
+    small = _worker(('event', 'small', 1, tier))
+    small_bad = [v for v in small.get('verdicts', []) if v['status'] == 'violated' and v.get('cause') != 'sub-millisecond']
+    if small_bad:
+        tasks = [t for t in tasks if t[0] != 'event']
+        ctx.notes.append('full-range event jobs skipped: the small-range job already reports a violation')
+    else:
+        tasks = [t for t in tasks if t != ('event', 'small', 1, tier)]
     with ProcessPoolExecutor(max_workers=12, mp_context=mp.get_context('fork')) as pool:
-        res = list(pool.map(_worker, tasks))
+        res = [small] + list(pool.map(_worker, tasks))
     binp = None; seen = set()
     for r in res:
         tgt = 'value conversion' if r['spec'][0] == 'value' else 'event conversion'; cls = '%s n=%s' % (r['spec'][1], r['spec'][2])
